@@ -451,3 +451,75 @@ func ruleRenderIdentity(w *World, r *Report, pkg *ssa.Package) {
 			rn.fn+" alters the codec's output ("+why+"): what is written is no longer what the codec reads back")
 	}
 }
+
+// ruleScanErr: a bufio.Scanner stops silently at an over-long token; a reader
+// built on one must consult Err(), or input is truncated without an error.
+func ruleScanErr(w *World, r *Report, pkg *ssa.Package, tag string) {
+	const rule = "R-SCANERR"
+	n := 0
+	for _, fn := range w.FuncsOf(pkg) {
+		if fn.Parent() != nil {
+			continue
+		}
+		scans, errs := 0, 0
+		var pos ssa.Instruction
+		withClosures(fn, func(f *ssa.Function) {
+			allInstrs(f, func(in ssa.Instruction) {
+				if c, ok := in.(ssa.CallInstruction); ok {
+					switch calleeFullName(c) {
+					case "(*bufio.Scanner).Scan":
+						scans++
+						pos = in
+					case "(*bufio.Scanner).Err":
+						if v, ok := in.(ssa.Value); ok && usedValue(v) {
+							errs++
+						}
+					}
+				}
+			})
+		})
+		if scans == 0 {
+			continue
+		}
+		n++
+		r.Check(errs > 0, rule, fnName(fn)+":scanner-error-consulted", w.Pos(pos.Pos()), "the scanner's Err() is consulted after scanning",
+			"input is read with a bufio.Scanner whose Err() is never consulted: a line longer than the scanner's buffer ends the scan silently and the rest of the input is dropped without an error")
+	}
+	if n == 0 {
+		r.Ok(rule, tag+":no-scanner", "-", "the library splits its input itself; no bufio.Scanner is used")
+	}
+}
+
+// ruleRawArg: renderJson / renderYaml are only handed what a raw() method
+// built (premise (a) of lemma S6 and of the codec symmetry).
+func ruleRawArg(w *World, r *Report, pkg *ssa.Package) {
+	const rule = "R-RAWARG"
+	n := 0
+	for _, fn := range w.FuncsOf(pkg) {
+		allInstrs(fn, func(in ssa.Instruction) {
+			c, ok := in.(*ssa.Call)
+			if !ok {
+				return
+			}
+			sf := staticCallee(c)
+			if sf == nil || fnPkg(sf) != pkg.Pkg || (sf.Name() != "renderJson" && sf.Name() != "renderYaml") {
+				return
+			}
+			n++
+			arg := strip(c.Call.Args[0])
+			okRaw := false
+			if ac, isC := arg.(*ssa.Call); isC {
+				if ac.Call.IsInvoke() {
+					okRaw = ac.Call.Method.Name() == "raw"
+				} else if af := staticCallee(ac); af != nil {
+					okRaw = af.Name() == "raw"
+				}
+			}
+			r.Check(okRaw, rule, fmt.Sprintf("%s→%s", fnName(fn), sf.Name()), w.Pos(c.Pos()), "the value rendered is the output of raw()",
+				"the renderer is handed "+valueName(arg)+" instead of the node's raw() form: the codec sees jd's internal Go types (a null is a nil []byte, a number a named float) and renders them differently from the other format")
+		})
+	}
+	if n < 10 {
+		r.Bad(rule, "v2:instance-floor", "-", fmt.Sprintf("only %d calls of renderJson/renderYaml found", n))
+	}
+}
